@@ -277,6 +277,7 @@ CHECKS = {
 
 # later extensions of generators and oracles (kept apart so that each addition reads as one sentence)
 RULE_ADDENDA = {
+    "C01": "Every value is also built the way callers build it - New<Type>(Set<Field>(...)...) for the header and the seven bodies - and must encode (bytes and error) exactly like the struct literal.",
     "C03": "Client-write cases also go through Client.SendOnly and use Packet literals whose Header.Length is stale (0, 5, n+20, 65536): what is written must follow the body.",
     "C04": "Every input is also decoded into reused receivers (a fully populated value, and the decode of the valid packet the input was derived from): refusal must not depend on the receiver and every decoded field must come from this input.",
     "C05": "After an injected deadline expiry in the middle of a packet the connection must be closed; one that goes back to reading is the verdict stall-not-an-error.",
